@@ -16,7 +16,7 @@ var Universe = []string{"a", "b", "c", "d", "e", "zz"}
 
 // Op is one step of a history.
 type Op struct {
-	K    string `json:"k"`              // avail | set | adv | fire | quiesce
+	K    string `json:"k"`              // avail | set | adv | fire | advfire | quiesce
 	E    int    `json:"e,omitempty"`    // endpoint index (mod len(Universe))
 	B    bool   `json:"b,omitempty"`    // availability value
 	L    []int  `json:"l,omitempty"`    // new list (indices into Universe[:5]); may be empty or contain duplicates
@@ -246,11 +246,19 @@ func Run(c *Case, props map[string]bool) (res Result) {
 	clk := &vclock{now: time.Unix(1000, 0)}
 	clk.install()
 	step := -1
+	otherFailed := false
 	fail := func(prop, rule, f string, a ...interface{}) {
 		if props[prop] {
 			panic(failPanic{&Fail{Prop: prop, Rule: rule, Step: step, Msg: fmt.Sprintf(f, a...)}})
 		}
-		panic(failPanic{nil}) // another property's failure: end the case silently
+		// another property's rule failed on this observation: the remaining rules of the same
+		// observation are still evaluated (they are independent), then the case ends silently
+		otherFailed = true
+	}
+	endIfOtherFailed := func() {
+		if otherFailed {
+			panic(failPanic{nil})
+		}
 	}
 	defer func() {
 		if r := recover(); r != nil {
@@ -276,6 +284,7 @@ func Run(c *Case, props map[string]bool) (res Result) {
 	me, err := multiendpoint.NewMultiEndpoint(&multiendpoint.MultiEndpointOptions{Endpoints: append([]string{}, init...), RecoveryTimeout: R, SwitchingDelay: D})
 	if err != nil {
 		fail("C13", "create", "NewMultiEndpoint(%v): %v", init, err)
+		endIfOtherFailed()
 	}
 	m := &model{list: init, ep: map[string]*mep{}, cur: init[0], R: R, D: D}
 	for _, e := range init {
@@ -284,6 +293,7 @@ func Run(c *Case, props map[string]bool) (res Result) {
 	fuzzy := false // a list with duplicates was accepted: membership only from then on
 	if got := me.Current(); got != init[0] {
 		fail("C13", "B.init", "initial current %q, want first of %v", got, init)
+		endIfOtherFailed()
 	}
 
 	type snap struct {
@@ -307,6 +317,7 @@ func Run(c *Case, props map[string]bool) (res Result) {
 			fail("C13", "B.member", "%s: current %q is not in the accepted list %v", what, got, m.list)
 		}
 		if fuzzy {
+			endIfOtherFailed()
 			m.cur = got
 			return
 		}
@@ -367,6 +378,7 @@ func Run(c *Case, props map[string]bool) (res Result) {
 		} else {
 			lab["op-with-timers-in-flight"]++
 		}
+		endIfOtherFailed()
 		m.cur = got
 	}
 
@@ -444,10 +456,12 @@ func Run(c *Case, props map[string]bool) (res Result) {
 				lab["empty-list"]++
 				if err == nil {
 					fail("C13", "B.emptyList", "SetEndpoints([]) accepted")
+					endIfOtherFailed()
 				}
 			} else {
 				if err != nil {
 					fail("C13", "B.set", "SetEndpoints(%v) rejected: %v", nl, err)
+					endIfOtherFailed()
 				}
 				fuzzy = false
 				if hasDup(nl) {
@@ -507,6 +521,11 @@ func Run(c *Case, props map[string]bool) (res Result) {
 			}
 			clk.advance(d)
 			check("Advance", "other", snapshot())
+		case "advfire": // advance to the next due timer and fire everything that is due
+			if nd, ok := clk.nextDue(); ok {
+				clk.advance(nd.Sub(clk.now))
+			}
+			fireAll(op.Pi, "AdvFire")
 		case "fire":
 			fireAll(op.Pi, "Fire")
 		case "quiesce":
@@ -525,6 +544,7 @@ func Run(c *Case, props map[string]bool) (res Result) {
 					fail("C14", "B.converge", "after quiescence current %q, top available %q (list %v)", me.Current(), ta, m.list)
 				}
 			}
+			endIfOtherFailed()
 		}
 	}
 	res.NontrivC13 = curRemovedOrReordered && lab["timer-fired"] > 0 && len(m.ep) >= 1 && len(c.Init) >= 3
